@@ -92,6 +92,7 @@ package core
 
 //@ func CRespCodec.Frag1
 //@   props C08 C12
+//@   flags allocbound
 //@   requires c != nil && resp != nil && buf != nil && codec.bwf(buf) && n >= 0
 //@   ensures[wf] codec.bwf(buf) && buf.buf == old(buf.buf) && buf.r >= old(buf.r)
 //@   ensures[args] result == nil ==> args_ok(buf.buf, n, old(buf.r)) && buf.r == args_end(buf.buf, n, old(buf.r))
@@ -106,6 +107,7 @@ package core
 
 //@ func CRespCodec.Frag2
 //@   props C08 C12
+//@   flags allocbound
 //@   requires c != nil && resp != nil && buf != nil && codec.bwf(buf) && n >= 0
 //@   ensures[wf] codec.bwf(buf) && buf.buf == old(buf.buf) && buf.r >= old(buf.r)
 //@   ensures[args] (result == nil && n % 2 == 0) ==> args_ok(buf.buf, n, old(buf.r)) && buf.r == args_end(buf.buf, n, old(buf.r))
